@@ -189,7 +189,7 @@ H("c19_composite_delta_not_clamped", ["C19", "C03"], "fontbe", "glyphs", flags=C
   bound="one delta, dx,dy any f64 inside the i16 range", oracle="stored delta within 0.5 of the input; optional <=> rounds to (0,0)")
 H("c19_composite_delta_beyond_i16", "C19", "fontbe", "glyphs", flags=CHECKED_FLAGS, funcs=[G + "::process_composite_deltas"],
   bound="dx any finite f64 beyond the i16 range (|x| < 1e9)", oracle="stored delta within 0.5 of the input (known finding: it saturates)")
-H("c19_os2_apply_metrics", "C19", "fontbe", "os2", flags=CHECKED_FLAGS, funcs=["fontbe/src/os2.rs::apply_metrics"],
+H("c19_os2_apply_metrics", ["C19", "C04"], "fontbe", "os2", flags=CHECKED_FLAGS, funcs=["fontbe/src/os2.rs::apply_metrics"],
   bound="17 metrics, any f64 inside the range of their i16/u16 field", oracle="each OS/2 field == floor(own metric + 0.5)")
 H("c19_width_class_total", "C19", "fontdrasil", "types", flags=CHECKED_FLAGS, funcs=["fontdrasil/src/types.rs::WidthClass::try_from"],
   bound="every u16", oracle="Ok iff 1..=9 with the value preserved; no panic (overflow checks on)")
@@ -251,7 +251,16 @@ H("c02_acl_silent_when_admitted", "C02", "fontdrasil-c4", "orchestration", funcs
 H("c02_acl_panics_when_not_admitted", "C02", "fontdrasil-c4", "orchestration", funcs=[O + "::assert_access_one"],
   bound="specific write rule, any other id", oracle="the illegal-write panic is raised (kani::should_panic)")
 
+IR = "fontir/src/ir.rs"
+H("c04_phantom_points_horizontal", "C04", "fontir", "ir", flags=CHECKED_FLAGS, funcs=[IR + "::GlyphInstance::add_phantom_points"],
+  bound="advance any f64 in [0, 65535.5); explicit height/vertical origin any finite f64", oracle="phantoms = (0,0), (floor(advance+0.5),0), (0,0), (0,0)")
+H("c04_phantom_points_vertical", "C04", "fontir", "ir", flags=CHECKED_FLAGS, funcs=[IR + "::GlyphInstance::{add_phantom_points,height,vertical_origin}"],
+  bound="typo ascender/descender, optional own height and vertical origin: any finite f64 whose effective values fit u16 / i16", oracle="top = rounded own-or-ascender, bottom = top - rounded own-or-(ascender-descender)")
+
 PROPERTIES = {
+    "C04": {"outside": "HVAR/VVAR/MVAR assembly (AdvanceDeltas, GlobalMetricsBuilder::build, mvar/hvar jobs: f64 code over IR containers and Context), hhea/post/vhea default fields (rounded inline in job bodies), "
+                       "sparse glyph sub-models, advances beyond 65535 (C19 known finding)",
+            "assumptions": ["kernel-level claim: phantom points, OS/2 default-location metric fields, and the delta arithmetic (the real generic deltas/interpolate on symbolic integer master values)"]},
     "C02": {"outside": "everything about scheduling: Workload::can_run / is_dep_fulfilled (did not fit CBMC in three attempts: 15-17 GB), handle_success access rewriting, real threads, atomics ordering, "
                        "channel delivery, dynamic job creation, and whether each job's read_access declares everything exec reads",
             "assumptions": ["kernel-level claim: the access-rule matcher only, for the instantiation I = TestId; production ids differ in Eq/discriminant (derived / hand-written matches)"]},
@@ -274,5 +283,5 @@ PROPERTIES = {
     "C07": {"outside": "layouts off the k/4 grid, > 2 axes in K harnesses, LocationSortingHat::key_for with symbolic locations, new_extrapolating",
             "assumptions": []},
 }
-SV_PROPERTIES = {"C07", "C03"}
+SV_PROPERTIES = {"C07", "C03", "C04"}
 SCAN_PROPERTIES = {"C19"}
